@@ -13,8 +13,8 @@ def strip(line):
 
 
 def run(ctx):
-    C.prepare(ctx, ['C12', 'C12_mvp60', 'C01_mvp4', 'C05_mvp4', 'C01_mvp5', 'C05_mvp5'], need_gen_oracle=False)
-    ok_mvp, out = C.ensure_oracle(ctx, 'mvp', ['theories/Mvp/Mvp12.vo', 'theories/Mvp/Mvp3.vo', 'theories/Mvp/Mvp4.vo', 'theories/Mvp/Mvp5.vo', 'theories/Mvp/Mvp60.vo', 'theories/Isa/Refine.vo'], ['Mvp', 'Isa', 'Gen', 'Base', 'Comp'])
+    C.prepare(ctx, ['C12', 'C12_mvp60', 'C12_mvp61', 'C01_mvp4', 'C05_mvp4', 'C01_mvp5', 'C05_mvp5'], need_gen_oracle=False)
+    ok_mvp, out = C.ensure_oracle(ctx, 'mvp', ['theories/Mvp/Mvp12.vo', 'theories/Mvp/Mvp3.vo', 'theories/Mvp/Mvp4.vo', 'theories/Mvp/Mvp5.vo', 'theories/Mvp/Mvp60.vo', 'theories/Mvp/Mvp61.vo', 'theories/Isa/Refine.vo'], ['Mvp', 'Isa', 'Gen', 'Base', 'Comp'])
     if not ok_mvp:
         ctx.broken.append({'file': 'coq/theories/Mvp/Mvp12.v', 'line': None, 'lemma': 'extraction of the MVP-1/2 cycle model (depends on the regenerated opcode model)', 'error': out[-1500:]})
     cells = syscheck.load_domains()
@@ -75,15 +75,15 @@ def run(ctx):
                                'lemma': 'correspondence of the MVP-%s cycle-level model with proc/mvp%s (cycles, registers, memory)' % (v, v),
                                'error': 'model %s | implementation %s | %d cases differ' % (m, r, len(tie3)),
                                'harness_cmd': 'run', 'go_case': line})
-        # 1b. MVP-6.0 (superscalar, 1..4 execute/write units): exact (cycles, registers, memory) against the
-        # faithful model Mvp/Mvp60.v.  The model runs with the number of ticks the Go run took as fuel; runs whose
+        # 1b. MVP-6.0 and MVP-6.1 (superscalar, 1..4 execute/write units): exact (cycles, registers, memory) against the
+        # faithful models Mvp/Mvp60.v, Mvp/Mvp61.v.  The model runs with the number of ticks the Go run took as fuel; runs whose
         # result can depend on Go's map iteration order (the model's ghost flag os=1) and runs that exhaust the
         # tick budget are not compared here (bin/tie_m60.py compares those too: all sampled orders, state at the budget).
         tie60, n60, os60, bud60 = [], 0, 0, 0
         step60 = 2 if ctx.tier == 'quick' else 1
         sel = [k for k in range(0, len(allp), step60) if spec[k][0] == 'ok']
-        for par in (1, 2, 3, 4):
-            impl6, il6, raw6 = S.run_impl(ctx, [(allp[k], '6.0', par, S.budget_for(spec[k][1])) for k in sel], 'c12-i60x%d' % par)
+        for v6, par in [(v6, par) for v6 in ('6.0', '6.1') for par in (1, 2, 3, 4)]:
+            impl6, il6, raw6 = S.run_impl(ctx, [(allp[k], v6, par, S.budget_for(spec[k][1])) for k in sel], 'c12-i%sx%d' % (v6, par))
             cmpk, mlines = [], []
             for j, k in enumerate(sel):
                 kind = impl6[j][0]
@@ -92,8 +92,8 @@ def run(ctx):
                     continue
                 fuel = (impl6[j][4] + 8) if kind == 'ok' and impl6[j][4] else min(S.budget_for(spec[k][1]), 40000)
                 cmpk.append((j, k))
-                mlines.append('6.0x%d' % par + '\t' + allp[k].spec_case(fuel, acc=False).rsplit('\t', 1)[0])
-            model6 = C.run_lines(C.BUILD + '/mvp_oracle', 'mvp', mlines, ctx.work, 'c12-m60x%d' % par) if ok_mvp else None
+                mlines.append('%sx%d' % (v6, par) + '\t' + allp[k].spec_case(fuel, acc=False).rsplit('\t', 1)[0])
+            model6 = C.run_lines(C.BUILD + '/mvp_oracle', 'mvp', mlines, ctx.work, 'c12-m%sx%d' % (v6, par)) if ok_mvp else None
             if model6 is None:
                 continue
             for (j, k), m in zip(cmpk, model6):
@@ -107,11 +107,11 @@ def run(ctx):
                     r = 'panic'
                 n60 += 1
                 if m != r:
-                    tie60.append((par, k, m, r, il6[j]))
+                    tie60.append((v6, par, k, m, r, il6[j]))
         if tie60:
-            par, k, m, r, line = tie60[0]
-            ctx.broken.append({'file': 'coq/theories/Mvp/Mvp60.v', 'line': None,
-                               'lemma': 'correspondence of the MVP-6.0 cycle-level model with proc/mvp6-0 (cycles, registers, memory) at %d units' % par,
+            v6, par, k, m, r, line = tie60[0]
+            ctx.broken.append({'file': 'coq/theories/Mvp/Mvp%s.v' % v6.replace('.', ''), 'line': None,
+                               'lemma': 'correspondence of the MVP-%s cycle-level model with proc/mvp%s (cycles, registers, memory) at %d units' % (v6, v6.replace('.', '-'), par),
                                'error': 'model %s | implementation %s | %d of %d compared cases differ | %s' % (m, r, len(tie60), n60, allp[k].asm().replace('|', '; ')[:300]),
                                'harness_cmd': 'run', 'go_case': line})
         slower = [(k, d) for k, d in c1c2.items() if '1' in d and '2' in d and d['2'] > d['1']]
@@ -173,7 +173,7 @@ def run(ctx):
             'samples': [slines[i] for i in rng.sample(range(len(slines)), 3)],
             'programs': len(allp), 'mvp60_compared': n60, 'mvp60_order_sensitive_skipped': os60, 'mvp60_budget_skipped': bud60, 'model_mismatches_mvp60': len(tie60), 'model_mismatches_mvp12': len(mism), 'model_mismatches_mvp3': len(tie3), 'mvp2_slower': len(slower),
             'lower_bound_violations': len(lows), 'value_independence_pairs_checked': pairs_checked, 'value_dependence_found': len(dep),
-            'theorems': sum([C.theorem_names(C.COQ + '/theories/Props/%s.v' % pf) for pf in ['C12', 'C12_mvp60', 'C01_mvp4', 'C05_mvp4', 'C01_mvp5', 'C05_mvp5']], []),
+            'theorems': sum([C.theorem_names(C.COQ + '/theories/Props/%s.v' % pf) for pf in ['C12', 'C12_mvp60', 'C12_mvp61', 'C01_mvp4', 'C05_mvp4', 'C01_mvp5', 'C05_mvp5']], []),
         }
     C.report_broken(ctx, found)
     cov.setdefault('evaluations', 0)
@@ -183,4 +183,4 @@ def run(ctx):
     return C.finish(ctx, 'proof', cov,
                     ['MVP-1/2 theorems are about the faithful model Mvp/Mvp12.v, tied to the code by exact equality of the returned triple on every generated program',
                      'MVP-3 (Props/C05_mvp3.v: cost3) and MVP-4 / MVP-5 (Props/C01_mvp4.v, C05_mvp4.v, C01_mvp5.v, C05_mvp5.v: the count is a function of the program and the path / the (pc, address) events, at least one per executed instruction, independent of operand values; register-only programs and programs whose stores hit in L1D) have theorems about their faithful models; MVP-6.0 (Props/C12_mvp60.v: count >= 1, issue width two at any number of units; faithful model tied by exact equality at 1..4 units); for MVP-6.1..8 no theorem about the cycle count is claimed: bounds and value independence are checked per run'],
-                    'make -C /verif/coq theories/Props/C12.vo theories/Props/C12_mvp60.vo theories/Props/C01_mvp4.vo theories/Props/C05_mvp4.vo theories/Props/C01_mvp5.vo theories/Props/C05_mvp5.vo (coqc 8.16.1)')
+                    'make -C /verif/coq theories/Props/C12.vo theories/Props/C12_mvp60.vo theories/Props/C12_mvp61.vo theories/Props/C01_mvp4.vo theories/Props/C05_mvp4.vo theories/Props/C01_mvp5.vo theories/Props/C05_mvp5.vo (coqc 8.16.1)')
